@@ -902,6 +902,131 @@ async fn run_reload_case(pki: &Pki, c: &ReloadCase, sink: &Sink<'_>, counters: &
 }
 
 // ---------------------------------------------------------------------------------------
+// A client CA is configured but its file yields no usable certificate (empty during rotation, key only, not PEM):
+// the server may refuse to start / refuse the reload, but it must never end up admitting clients it cannot authenticate.
+// ---------------------------------------------------------------------------------------
+
+const BAD_CA_KINDS: [&str; 4] = ["empty", "key-only", "not-pem", "truncated-pem"];
+const BAD_CA_VIA: [&str; 4] = ["start", "reload.same-paths-overwritten", "reload.other-paths", "reload.from-pem"];
+
+#[derive(Clone, Debug, PartialEq, Eq, Hash)]
+struct BadCaCase {
+    alg: String,
+    ctor: String,
+    kind: String,
+    via: String,
+}
+
+impl BadCaCase {
+    fn to_json(&self) -> Value {
+        json!({"kind": "bad-client-ca", "alg": self.alg, "ctor": self.ctor, "ca_file": self.kind, "via": self.via})
+    }
+    fn from_json(v: &Value) -> Self {
+        let s = |k: &str| v[k].as_str().unwrap_or_else(|| panic!("replay: missing {k}")).to_string();
+        Self { alg: s("alg"), ctor: s("ctor"), kind: s("ca_file"), via: s("via") }
+    }
+}
+
+fn bad_ca_domain(algs: &[&str]) -> Vec<BadCaCase> {
+    let mut v = Vec::new();
+    for alg in algs {
+        for kind in BAD_CA_KINDS {
+            for via in BAD_CA_VIA {
+                for ctor in CTORS {
+                    if via != "start" && ctor != "make_tls_identity" {
+                        continue; // a reload needs a TlsIdentity; the reload method is the variable there
+                    }
+                    v.push(BadCaCase { alg: (*alg).into(), ctor: ctor.into(), kind: kind.into(), via: via.into() });
+                }
+            }
+        }
+    }
+    v
+}
+
+/// Returns the facts observed (for determinism comparison in replay).
+async fn run_bad_ca_case(pki: &Pki, c: &BadCaCase, sink: &Sink<'_>, counters: &Counters) -> Result<Facts, String> {
+    catch(async {
+        let mut facts: Facts = Vec::new();
+        let replay = c.to_json();
+        let id = pki.server("trusted-ca", "localhost");
+        let bad = format!("{}/badca-{}-{}-{}.pem", pki.dir_path, c.kind, c.via, c.ctor);
+        let content = match c.kind.as_str() {
+            "empty" => String::new(),
+            "key-only" => id.key_pem.clone(),
+            "not-pem" => "this is not a certificate\n".to_string(),
+            "truncated-pem" => "-----BEGIN CERTIFICATE-----\nMIIB".to_string(),
+            other => panic!("unknown bad CA kind {other}"),
+        };
+        write(&bad, &content);
+        let cfg: Arc<ServerConfig> = if c.via == "start" {
+            match build_server_config(&c.ctor, id, Some(&bad)).await {
+                Err(e) => {
+                    facts.push(("start.refused".into(), json!(true)));
+                    let _ = e;
+                    counters.evals.fetch_add(1, Ordering::Relaxed);
+                    return facts; // refusing to start is fine
+                }
+                Ok((_, cfg)) => cfg,
+            }
+        } else {
+            let idb = pki.server("trusted-ca-2", "localhost");
+            let live_cert = format!("{bad}.live.cert.pem");
+            let live_key = format!("{bad}.live.key.pem");
+            write(&live_cert, &id.cert_pem);
+            write(&live_key, &id.key_pem);
+            let ident = match tls::make_tls_identity(&live_cert, &live_key, Some(pki.ca_client.path.as_str())).await {
+                Ok(i) => i,
+                Err(e) => {
+                    sink.viol("server.config-rejected.make_tls_identity".into(), format!("{e}; {c:?}"), replay.clone());
+                    return facts;
+                }
+            };
+            let r = match c.via.as_str() {
+                "reload.same-paths-overwritten" => {
+                    write(&live_cert, &idb.cert_pem);
+                    write(&live_key, &idb.key_pem);
+                    tls::reload_tls_identity(&ident, &live_cert, &live_key, Some(&bad)).await
+                }
+                "reload.other-paths" => tls::reload_tls_identity(&ident, &idb.cert_path, &idb.key_path, Some(&bad)).await,
+                "reload.from-pem" => tls::reload_tls_identity_from_pem(&ident, idb.cert_pem.clone(), idb.key_pem.clone(), Some(&bad)).await,
+                other => panic!("unknown via {other}"),
+            };
+            facts.push(("reload.ok".into(), json!(r.is_ok())));
+            let cfg = ident.load_full();
+            if r.is_err() {
+                // the old configuration stays: a client under the (old, valid) client CA is still admitted
+                let o = probe_handshake(cfg.clone(), true, pki.client("client-ca")).await;
+                counters.evals.fetch_add(1, Ordering::Relaxed);
+                facts.push(("after-refused-reload.client-ca.accepted".into(), json!(o.success())));
+                if !o.success() {
+                    sink.viol("badca.refused-reload-disturbed-old-config".into(), format!("the reload was refused but a client holding a certificate under the still-configured client CA is no longer admitted (client: {:?}, server: {:?}); {c:?}", o.client_err, o.server_err), replay.clone());
+                }
+            }
+            cfg
+        };
+        // whatever configuration is live now was built with a client CA configured: clients that present nothing, or a
+        // certificate from elsewhere, must not get through
+        for client in ["none", "other-ca", "self-signed"] {
+            for tls13 in [true, false] {
+                let o = probe_handshake(cfg.clone(), tls13, pki.client(client)).await;
+                counters.evals.fetch_add(1, Ordering::Relaxed);
+                facts.push((format!("probe.{client}.{}", if tls13 { "tls13" } else { "tls12" }), json!(o.server_accept_ok || o.echo_ok)));
+                if o.server_accept_ok || o.echo_ok {
+                    sink.viol(
+                        format!("server.accepts-client.unusable-client-ca.{}", if c.via == "start" { "start" } else { "reload" }),
+                        format!("a client CA is configured ({} file, via {} / {}) yet a client with certificate '{client}' completed the handshake (accept ok={}, echo ok={})", c.kind, c.via, c.ctor, o.server_accept_ok, o.echo_ok),
+                        replay.clone(),
+                    );
+                }
+            }
+        }
+        facts
+    })
+    .await
+}
+
+// ---------------------------------------------------------------------------------------
 // Which name does the real client ask for?  (`--tls-server-name` > `--hostname` > URL host)
 // ---------------------------------------------------------------------------------------
 
@@ -1167,6 +1292,16 @@ fn replay(args: &Args, v: &Value, mut rep: Report) -> Report {
                     }
                 }
             }
+            Some("bad-client-ca") => {
+                let c = BadCaCase::from_json(v);
+                match rt.block_on(run_bad_ca_case(&pki, &c, &sink, &counters)) {
+                    Ok(f) => json!({"verdict": f}),
+                    Err(p) => {
+                        sink.viol("badca.panic".into(), format!("panic with an unusable client CA {c:?}: {p}"), c.to_json());
+                        json!({"verdict": {"panicked": p}})
+                    }
+                }
+            }
             Some("client-name") => {
                 let c = NameCase::from_json(v);
                 let o = rt.block_on(run_name_case(&pki, &c));
@@ -1212,7 +1347,7 @@ pub fn run(args: &Args) -> Report {
     }
     let thorough = args.thorough();
     let algs: Vec<&str> = if thorough { ALGS.to_vec() } else { vec!["p256"] };
-    rep.rule = "complete product: key algorithm x server certificate {trusted-CA leaf, other-CA leaf, self-signed, expired trusted-CA leaf} x (certificate name, requested name) x skip-verify x roots given to the client {trusted CA, other CA, none/system} x client certificate {none, client-CA, other-CA, self-signed} x server client-CA {none, set} x server-config constructor; plus harness-client probes (TLS1.2/1.3) of every server configuration, all reload histories A->B (identities, client-CA before/after, reload method), and the real client main loop over loopback TCP for every (--hostname, --tls-server-name, certificate name, skip-verify) combination; a case is distinct when its configuration tuple is distinct".into();
+    rep.rule = "complete product: key algorithm x server certificate {trusted-CA leaf, other-CA leaf, self-signed, expired trusted-CA leaf} x (certificate name, requested name) x skip-verify x roots given to the client {trusted CA, other CA, none/system} x client certificate {none, client-CA, other-CA, self-signed} x server client-CA {none, set} x server-config constructor; plus harness-client probes (TLS1.2/1.3) of every server configuration, all reload histories A->B (identities, client-CA before/after, reload method), a client-CA file without a usable certificate {empty, key only, not PEM, truncated PEM} at start-up (every constructor) and at reload (every method): refusing is fine, admitting a client without a certificate under a CA is not, and the real client main loop over loopback TCP for every (--hostname, --tls-server-name, certificate name, skip-verify) combination; a case is distinct when its configuration tuple is distinct".into();
 
     let t0 = std::time::Instant::now();
     let pkis: Vec<(String, Pki)> = algs.iter().map(|a| ((*a).to_string(), Pki::new(a))).collect();
@@ -1223,9 +1358,11 @@ pub fn run(args: &Args) -> Report {
     let probes = probe_domain(&algs);
     let reloads = reload_domain(&algs);
     let names = name_domain(&algs);
-    let distinct = matrix.iter().collect::<HashSet<_>>().len() + probes.iter().collect::<HashSet<_>>().len() + reloads.iter().collect::<HashSet<_>>().len() + names.iter().collect::<HashSet<_>>().len();
+    let badcas = bad_ca_domain(&algs);
+    let distinct = badcas.len() + matrix.iter().collect::<HashSet<_>>().len() + probes.iter().collect::<HashSet<_>>().len() + reloads.iter().collect::<HashSet<_>>().len() + names.iter().collect::<HashSet<_>>().len();
     let n_name_ok = AtomicU64::new(0);
     let n_name_refused = AtomicU64::new(0);
+    let n_badca_refused_start = AtomicU64::new(0);
 
     let rep_m = Mutex::new(rep);
     let sink = Sink { rep: &rep_m };
@@ -1243,12 +1380,14 @@ pub fn run(args: &Args) -> Report {
         P(usize),
         R(usize),
         N(usize),
+        B(usize),
     }
     let mut jobs: Vec<Job> = Vec::new();
     jobs.extend((0..matrix.len()).map(Job::M));
     jobs.extend((0..probes.len()).map(Job::P));
     jobs.extend((0..reloads.len()).map(Job::R));
     jobs.extend((0..names.len()).map(Job::N));
+    jobs.extend((0..badcas.len()).map(Job::B));
     let next = AtomicU64::new(0);
 
     std::thread::scope(|s| {
@@ -1312,6 +1451,18 @@ pub fn run(args: &Args) -> Report {
                                 samples.lock().unwrap().push(json!({"case": c.to_json(), "observed": format!("{o:?}")}));
                             }
                         }
+                        Job::B(k) => {
+                            let c = &badcas[k];
+                            match rt.block_on(run_bad_ca_case(pki_of(&c.alg), c, &sink, &counters)) {
+                                Ok(f) => {
+                                    n_badca_refused_start.fetch_add(u64::from(f.iter().any(|(k, _)| k == "start.refused")), Ordering::Relaxed);
+                                    if k == 1 {
+                                        samples.lock().unwrap().push(json!({"case": c.to_json(), "observed": f}));
+                                    }
+                                }
+                                Err(p) => sink.viol("badca.panic".into(), format!("panic with an unusable client CA {c:?}: {p}"), c.to_json()),
+                            }
+                        }
                         Job::R(k) => {
                             let c = &reloads[k];
                             let pki = pki_of(&c.alg);
@@ -1339,6 +1490,9 @@ pub fn run(args: &Args) -> Report {
     rep.bounds.insert("probe_cases".into(), json!(probes.len()));
     rep.bounds.insert("reload_histories".into(), json!(reloads.len()));
     rep.bounds.insert("client_name_selection_cases".into(), json!(names.len()));
+    rep.bounds.insert("unusable_client_ca_cases".into(), json!(badcas.len()));
+    rep.bounds.insert("unusable_client_ca_files".into(), json!(BAD_CA_KINDS));
+    rep.extra.insert("unusable_client_ca_refused_at_start".into(), json!(n_badca_refused_start.load(Ordering::Relaxed)));
     rep.extra.insert("client_name_expected_accept".into(), json!(n_name_ok.load(Ordering::Relaxed)));
     rep.extra.insert("client_name_expected_refuse".into(), json!(n_name_refused.load(Ordering::Relaxed)));
     rep.bounds.insert("name_pairs(san,requested)".into(), json!(names_for(thorough)));
